@@ -1,7 +1,9 @@
 // Harness for C15: drives the real CQRS buses and processors of components/cqrs.
 //
 //	REQ bus  <c|e> <name> <topic> <hook> <mod> <pub> <enc> <info>          OBS effect tokens … R:<result>
+//	REQ busseq <c|e> <hook> <mod> <info> <send>*                            OBS effect tokens of every send, separated by |
 //	REQ proc <c|e|g> <flags> <oh> <reg> <info> <msg>*                      OBS one token per message
+//	    info suffix .c: all messages of the stream in flight at once per subscription, rendezvous inside Unmarshal
 //
 // (field syntax: lean/Driver/C15.lean).  Buses publish into a capturing publisher; processors are built with the
 // non-deprecated constructors (or, info flag dep=1, the deprecated facade) on a real message.Router and fed through
@@ -17,9 +19,11 @@ import (
 	"errors"
 	"fmt"
 	"os"
+	"runtime"
 	"strconv"
 	"strings"
 	"sync"
+	"sync/atomic"
 	"time"
 
 	"github.com/ThreeDotsLabs/watermill"
@@ -311,7 +315,7 @@ type capturePub struct {
 	ok  bool
 }
 
-func (p capturePub) Publish(topic string, msgs ...*message.Message) error {
+func (p *capturePub) Publish(topic string, msgs ...*message.Message) error {
 	if len(msgs) == 0 {
 		*p.log = append(*p.log, "P:"+wh.HexS(topic)+":<empty>:<empty>")
 	}
@@ -323,7 +327,7 @@ func (p capturePub) Publish(topic string, msgs ...*message.Message) error {
 	}
 	return nil
 }
-func (capturePub) Close() error { return nil }
+func (*capturePub) Close() error { return nil }
 
 func classify(err error) string {
 	if err == nil {
@@ -363,7 +367,7 @@ func runBus(b busCase) (req, obs string) {
 	var log []string
 	tf := topicFn(b.topic)
 	m := marshaler(b.marsh, b.gen)
-	p := capturePub{&log, b.pubOK}
+	p := &capturePub{&log, b.pubOK}
 	hook := func(name string, msg *message.Message) error {
 		if msg == nil {
 			log = append(log, "H:nil-message")
@@ -454,6 +458,221 @@ func runBus(b busCase) (req, obs string) {
 	return req, strings.Join(log, " ")
 }
 
+// ---------------------------------------------------------------------------------------------- sequences through one bus
+
+// A bus whose GeneratePublishTopic reads the value (topic per tenant) and/or state the application changes between
+// sends (a feature flag); several values – mostly of few types, so that one type name recurs with different contents –
+// are sent through the SAME bus object.
+type busSend struct {
+	ty    int
+	seed  uint64
+	flag  int // state of the application's switch when this value is sent
+	pubOK bool
+}
+
+type busSeqCase struct {
+	cmd   bool
+	hook  byte // n o e
+	mod   byte // n o e (command bus)
+	marsh byte
+	gen   int
+	mode  byte // v: topic from the value's tenant; f: from the switch; m: both; e: as v, one tenant has no topic (error)
+	sends []busSend
+}
+
+var tenants = []string{"acme", "globex", "initech"}
+var switchStates = []string{"blue", "green"}
+
+// tenantOf derives a tenant from the content of a value.
+func tenantOf(marsh byte, v interface{}) string {
+	b, err := libEncode(marsh, v)
+	if err != nil {
+		return "nobody"
+	}
+	n := 0
+	for _, x := range b {
+		n += int(x)
+	}
+	return tenants[n%len(tenants)]
+}
+
+// seqTopic is what the configuration generates for (name, value) with the switch in state flag.
+func seqTopic(mode byte, marsh byte, name string, v interface{}, flag int) (string, error) {
+	t := tenantOf(marsh, v)
+	switch mode {
+	case 'v':
+		return "ev." + t + "." + name, nil
+	case 'f':
+		return "ev." + switchStates[flag] + "." + name, nil
+	case 'm':
+		return "ev." + switchStates[flag] + "." + t + "." + name, nil
+	case 'e':
+		if t == "initech" {
+			return "", errors.New("tenant without a topic")
+		}
+		return "ev." + t + "." + name, nil
+	}
+	panic("mode")
+}
+
+func runBusSeq(b busSeqCase) (req, obs string) {
+	kind := "e"
+	if b.cmd {
+		kind = "c"
+	}
+	var rq strings.Builder
+	fmt.Fprintf(&rq, "busseq %s %c %c %c.%d.%c", kind, b.hook, b.mod, b.marsh, b.gen, b.mode)
+	vals := make([]interface{}, len(b.sends))
+	for i, s := range b.sends {
+		v := mkValue(b.marsh, s.ty, s.seed)
+		vals[i] = v
+		name := wantName(b.marsh, b.gen, s.ty)
+		enc := "x"
+		if e, err := libEncode(b.marsh, v); err == nil {
+			enc = wh.Hex(e)
+		}
+		topic := "err"
+		if t, err := seqTopic(b.mode, b.marsh, name, v, s.flag); err == nil {
+			topic = "k:" + wh.HexS(t)
+		}
+		pub := "e"
+		if s.pubOK {
+			pub = "o"
+		}
+		fmt.Fprintf(&rq, " %s/%s/%s/%s/%d.%d.%d", wh.HexS(name), topic, pub, enc, s.ty, s.seed, s.flag)
+	}
+	req = rq.String()
+
+	var log []string
+	flag := 0
+	pub := &capturePub{&log, true}
+	m := marshaler(b.marsh, b.gen)
+	hook := func(name string, msg *message.Message) error {
+		if msg == nil {
+			log = append(log, "H:nil-message")
+			return nil
+		}
+		log = append(log, "H:"+wh.HexS(name)+":"+wh.Meta(msg.Metadata)+":"+wh.Hex(msg.Payload))
+		if b.hook == 'e' {
+			return errors.New("hook says no")
+		}
+		msg.Metadata.Set("x-hook", "1")
+		return nil
+	}
+	modify := func(msg *message.Message) error {
+		log = append(log, "M:"+wh.Meta(msg.Metadata)+":"+wh.Hex(msg.Payload))
+		if b.mod == 'e' {
+			return errors.New("modify says no")
+		}
+		msg.Metadata.Set("x-mod", "1")
+		return nil
+	}
+	var cbus *cqrs.CommandBus
+	var ebus *cqrs.EventBus
+	var cerr error
+	if b.cmd {
+		cfg := cqrs.CommandBusConfig{
+			GeneratePublishTopic: func(params cqrs.CommandBusGeneratePublishTopicParams) (string, error) {
+				log = append(log, "T:"+wh.HexS(params.CommandName))
+				return seqTopic(b.mode, b.marsh, params.CommandName, params.Command, flag)
+			},
+			Marshaler: m,
+		}
+		if b.hook != 'n' {
+			cfg.OnSend = func(params cqrs.CommandBusOnSendParams) error { return hook(params.CommandName, params.Message) }
+		}
+		cbus, cerr = cqrs.NewCommandBusWithConfig(pub, cfg)
+	} else {
+		cfg := cqrs.EventBusConfig{
+			GeneratePublishTopic: func(params cqrs.GenerateEventPublishTopicParams) (string, error) {
+				log = append(log, "T:"+wh.HexS(params.EventName))
+				return seqTopic(b.mode, b.marsh, params.EventName, params.Event, flag)
+			},
+			Marshaler: m,
+		}
+		if b.hook != 'n' {
+			cfg.OnPublish = func(params cqrs.OnEventSendParams) error { return hook(params.EventName, params.Message) }
+		}
+		ebus, cerr = cqrs.NewEventBusWithConfig(pub, cfg)
+	}
+	if cerr != nil {
+		return req, "setup-error"
+	}
+	var parts []string
+	for i, s := range b.sends {
+		log = nil
+		flag = s.flag
+		pub.ok = s.pubOK
+		var err error
+		func() {
+			defer func() {
+				if r := recover(); r != nil {
+					log = append(log, wh.PanicText(r))
+					err = errors.New("panic")
+				}
+			}()
+			ctx := context.Background()
+			switch {
+			case !b.cmd:
+				err = ebus.Publish(ctx, vals[i])
+			case b.mod == 'n':
+				err = cbus.Send(ctx, vals[i])
+			default:
+				err = cbus.SendWithModifiedMessage(ctx, vals[i], modify)
+			}
+		}()
+		log = append(log, "R:"+classify(err))
+		parts = append(parts, strings.Join(log, " "))
+	}
+	if len(parts) == 0 {
+		return req, "-"
+	}
+	return req, strings.Join(parts, " | ")
+}
+
+func emitBusSeq(out *wh.Out, b busSeqCase) {
+	req, obs := runBusSeq(b)
+	out.Case(req, obs)
+	out.Count("busseq.cases")
+	out.Count("busseq.mode." + string(b.mode))
+	out.Add("busseq.sends", len(b.sends))
+	// how often a type name recurs with a different generated topic: the situation a per-name cache gets wrong
+	seen := map[int]string{}
+	for _, s := range b.sends {
+		v := mkValue(b.marsh, s.ty, s.seed)
+		t, err := seqTopic(b.mode, b.marsh, wantName(b.marsh, b.gen, s.ty), v, s.flag)
+		if err != nil {
+			t = "err"
+		}
+		if prev, ok := seen[s.ty]; ok && prev != t {
+			out.Count("busseq.same_type_other_topic")
+		}
+		seen[s.ty] = t
+	}
+}
+
+func genBusSeq(rng *wh.Rng, cmd bool, marsh byte, gen int, mode byte) busSeqCase {
+	b := busSeqCase{cmd: cmd, marsh: marsh, gen: gen, mode: mode, hook: "nnooe"[rng.Intn(5)], mod: 'n'}
+	if cmd {
+		b.mod = "nnnoe"[rng.Intn(5)]
+	}
+	n := 2 + rng.Intn(5)
+	t0, t1 := rng.Intn(nTypes), rng.Intn(nTypes)
+	for i := 0; i < n; i++ {
+		ty := t0
+		switch rng.Intn(8) {
+		case 0, 1:
+			ty = t1
+		case 2:
+			if rng.Intn(3) == 0 {
+				ty = 4 // cannot be marshalled
+			}
+		}
+		b.sends = append(b.sends, busSend{ty: ty, seed: rng.Next() % 1000000, flag: rng.Intn(2), pubOK: rng.Intn(6) != 0})
+	}
+	return b
+}
+
 // ---------------------------------------------------------------------------------------------- processors
 
 type procMsg struct {
@@ -473,6 +692,7 @@ type procCase struct {
 	marsh  byte
 	gen    int
 	dep    bool
+	conc   bool  // all messages of the stream are in flight at once in every subscription (rendezvous inside Unmarshal)
 	reg    []int // Go type of every handler, registration order
 	msgs   []procMsg
 }
@@ -505,6 +725,76 @@ type procRun struct {
 	cur  *message.Message
 	outs string
 	invs []invocation
+	// concurrent mode: several messages in flight in one subscription
+	owner    map[uint64]*message.Message // goroutine that ran Unmarshal for a message (the Router starts one per message) -> that message
+	flight   map[*message.Message]*inFlight
+	arrived  int
+	expected int
+	release  chan struct{}
+	released bool
+	strays   []invocation // invocations with a value no Unmarshal call has seen
+}
+
+type inFlight struct {
+	outs string
+	seen bool
+	invs []invocation
+}
+
+// rendezvousMarshaler wraps the marshaler under test (legal: Marshaler is a configuration option): Unmarshal notes
+// which message a fresh value belongs to and holds every message of the batch until all of them are inside Unmarshal,
+// i.e. past the context set-up and before the handler call.
+type rendezvousMarshaler struct {
+	cqrs.CommandEventMarshaler
+	r *procRun
+}
+
+// A rendezvous that does not complete (only possible when the code under test lets fewer messages reach Unmarshal than
+// the dispatch rule says) costs its timeout; after a few of them the remaining ones get a short one so that a run
+// against a changed tree still ends quickly.  On the unchanged tree no rendezvous ever times out.
+var rendezvousMisses int32
+
+func rendezvousTimeout() time.Duration {
+	if atomic.LoadInt32(&rendezvousMisses) >= 3 {
+		return 50 * time.Millisecond
+	}
+	return 3 * time.Second
+}
+
+// goid is the id of the calling goroutine (from the first line of its stack trace: "goroutine 123 [running]:").
+func goid() uint64 {
+	var buf [64]byte
+	f := strings.Fields(string(buf[:runtime.Stack(buf[:], false)]))
+	if len(f) < 2 {
+		return 0
+	}
+	n, _ := strconv.ParseUint(f[1], 10, 64)
+	return n
+}
+
+func (m rendezvousMarshaler) Unmarshal(msg *message.Message, v interface{}) error {
+	r := m.r
+	r.mu.Lock()
+	r.owner[goid()] = msg
+	rel := r.release
+	if f := r.flight[msg]; f != nil && !f.seen {
+		f.seen = true
+		r.arrived++
+		if r.arrived >= r.expected && !r.released {
+			// (a changed tree may let more messages reach Unmarshal than the dispatch rule says: release once)
+			r.released = true
+			close(r.release)
+		}
+		r.mu.Unlock()
+		select {
+		case <-rel:
+		case <-time.After(rendezvousTimeout()):
+			atomic.AddInt32(&rendezvousMisses, 1)
+		}
+	} else {
+		r.mu.Unlock()
+	}
+	return m.CommandEventMarshaler.Unmarshal(msg, v)
 }
 
 var errScripted = errors.New("scripted handler error")
@@ -515,15 +805,36 @@ func (r *procRun) invoked(idx int, ctx context.Context, v interface{}) error {
 	if err != nil {
 		val = []byte("unencodable")
 	}
+	cur, outs := r.cur, r.outs
+	var fl *inFlight
+	if r.pc.conc {
+		// the message this invocation belongs to: the one decoded on this goroutine (values cannot serve as the key:
+		// all pointers to zero-size values such as *Ping are equal)
+		cur = r.owner[goid()]
+		if fl = r.flight[cur]; fl != nil {
+			outs = fl.outs
+		}
+	}
 	o := byte('s')
 	switch om := cqrs.OriginalMessageFromCtx(ctx); {
 	case om == nil:
 		o = 'z'
-	case om == r.cur:
+	case om == cur:
 		o = 'o'
 	}
-	r.invs = append(r.invs, invocation{idx, val, o})
-	out := r.outs[idx]
+	switch {
+	case !r.pc.conc:
+		r.invs = append(r.invs, invocation{idx, val, o})
+	case fl != nil:
+		fl.invs = append(fl.invs, invocation{idx, val, o})
+	default:
+		r.strays = append(r.strays, invocation{idx, val, 's'})
+		outs = strings.Repeat("o", idx+1)
+	}
+	out := byte('o')
+	if idx < len(outs) {
+		out = outs[idx]
+	}
 	r.mu.Unlock()
 	switch out {
 	case 'e':
@@ -624,7 +935,7 @@ func (r *procRun) groupHandler(idx, ty int) cqrs.GroupEventHandler {
 const settleTimeout = 20 * time.Second
 
 // deliver hands one fresh message object to a subscription and waits for its settlement.
-func (r *procRun) deliver(sub *scriptedSub, pm procMsg) string {
+func buildMsg(pm procMsg) *message.Message {
 	msg := message.NewMessage("m", append([]byte{}, pm.payload...))
 	for k, v := range pm.md {
 		msg.Metadata.Set(k, v)
@@ -634,6 +945,88 @@ func (r *procRun) deliver(sub *scriptedSub, pm procMsg) string {
 		ctx = cqrs.CtxWithOriginalMessage(ctx, message.NewMessage("stale", nil))
 	}
 	msg.SetContext(ctx)
+	return msg
+}
+
+func renderDelivery(invs []invocation, st string) string {
+	parts := make([]string, len(invs))
+	for i, iv := range invs {
+		parts[i] = fmt.Sprintf("%d.%s.%c", iv.h, wh.Hex(iv.val), iv.orig)
+	}
+	s := "-"
+	if len(parts) > 0 {
+		s = strings.Join(parts, ",")
+	}
+	return s + "=" + st
+}
+
+// reachesUnmarshal: will the closure(s) of subscription j try to decode this message?
+func (r *procRun) reachesUnmarshal(j int, pm procMsg) bool {
+	name := pm.md["name"]
+	if r.pc.kind != 'g' {
+		return name == wantName(r.pc.marsh, r.pc.gen, r.pc.reg[j])
+	}
+	for _, ty := range r.pc.reg {
+		if name == wantName(r.pc.marsh, r.pc.gen, ty) {
+			return true
+		}
+	}
+	return false
+}
+
+// deliverAll hands every message of the stream to subscription j without waiting for settlements in between, then
+// waits for all of them; returns the observation of each message.
+func (r *procRun) deliverAll(j int, sub *scriptedSub, pms []procMsg) []string {
+	msgs := make([]*message.Message, len(pms))
+	r.mu.Lock()
+	r.owner = map[uint64]*message.Message{}
+	r.flight = map[*message.Message]*inFlight{}
+	r.arrived, r.expected, r.release, r.released, r.strays = 0, 0, make(chan struct{}), false, nil
+	for i, pm := range pms {
+		msgs[i] = buildMsg(pm)
+		r.flight[msgs[i]] = &inFlight{outs: pm.outs}
+		if r.reachesUnmarshal(j, pm) {
+			r.expected++
+		}
+	}
+	r.mu.Unlock()
+	st := make([]string, len(pms))
+	for i, msg := range msgs {
+		st[i] = "t"
+		select {
+		case sub.ch <- msg:
+		case <-time.After(settleTimeout):
+			st[i] = "T"
+		}
+	}
+	for i, msg := range msgs {
+		if st[i] == "T" {
+			st[i] = "t"
+			continue
+		}
+		select {
+		case <-msg.Acked():
+			st[i] = "a"
+		case <-msg.Nacked():
+			st[i] = "n"
+		case <-time.After(settleTimeout):
+		}
+	}
+	r.mu.Lock()
+	defer r.mu.Unlock()
+	res := make([]string, len(pms))
+	for i, msg := range msgs {
+		invs := r.flight[msg].invs
+		if i == 0 {
+			invs = append(append([]invocation{}, invs...), r.strays...)
+		}
+		res[i] = renderDelivery(invs, st[i])
+	}
+	return res
+}
+
+func (r *procRun) deliver(sub *scriptedSub, pm procMsg) string {
+	msg := buildMsg(pm)
 	r.mu.Lock()
 	r.cur, r.outs, r.invs = msg, pm.outs, nil
 	r.mu.Unlock()
@@ -651,15 +1044,7 @@ func (r *procRun) deliver(sub *scriptedSub, pm procMsg) string {
 	}
 	r.mu.Lock()
 	defer r.mu.Unlock()
-	parts := make([]string, len(r.invs))
-	for i, iv := range r.invs {
-		parts[i] = fmt.Sprintf("%d.%s.%c", iv.h, wh.Hex(iv.val), iv.orig)
-	}
-	invs := "-"
-	if len(parts) > 0 {
-		invs = strings.Join(parts, ",")
-	}
-	return invs + "=" + st
+	return renderDelivery(r.invs, st)
 }
 
 func b01(b bool) string {
@@ -676,6 +1061,9 @@ func (pc procCase) req() string {
 	}
 	var sb strings.Builder
 	fmt.Fprintf(&sb, "proc %c %s%s %c %s %c.%d.%s", pc.kind, b01(pc.ackErr), b01(pc.ackUnk), pc.oh, strings.Join(reg, ","), pc.marsh, pc.gen, b01(pc.dep))
+	if pc.conc {
+		sb.WriteString(".c")
+	}
 	for _, m := range pc.msgs {
 		dec := make([]string, nTypes)
 		for ty := 0; ty < nTypes; ty++ {
@@ -707,6 +1095,9 @@ func runProc(pc procCase) (req, obs string, err error) {
 		return req, "", rerr
 	}
 	m := marshaler(pc.marsh, pc.gen)
+	if pc.conc {
+		m = rendezvousMarshaler{m, r}
+	}
 	var subs []*scriptedSub
 	newSub := func() *scriptedSub {
 		s := &scriptedSub{ch: make(chan *message.Message)}
@@ -832,12 +1223,26 @@ func runProc(pc procCase) (req, obs string, err error) {
 		return req, "", errors.New("router did not start")
 	}
 	toks := make([]string, len(pc.msgs))
-	for i, pm := range pc.msgs {
-		dels := make([]string, len(subs))
+	if pc.conc {
+		dels := make([][]string, len(subs))
 		for j, s := range subs {
-			dels[j] = r.deliver(s, pm)
+			dels[j] = r.deliverAll(j, s, pc.msgs)
 		}
-		toks[i] = strings.Join(dels, "|")
+		for i := range pc.msgs {
+			row := make([]string, len(subs))
+			for j := range subs {
+				row[j] = dels[j][i]
+			}
+			toks[i] = strings.Join(row, "|")
+		}
+	} else {
+		for i, pm := range pc.msgs {
+			dels := make([]string, len(subs))
+			for j, s := range subs {
+				dels[j] = r.deliver(s, pm)
+			}
+			toks[i] = strings.Join(dels, "|")
+		}
 	}
 	if cerr := router.Close(); cerr != nil {
 		return req, "", fmt.Errorf("router close: %v", cerr)
@@ -961,6 +1366,10 @@ func emitProc(out *wh.Out, pc procCase) {
 	out.Count("proc.onhandle." + string(pc.oh))
 	if pc.dep {
 		out.Count("proc.deprecated_constructor")
+	}
+	if pc.conc {
+		out.Count("proc.concurrent_cases")
+		out.Add("proc.concurrent_messages_in_flight", len(pc.msgs))
 	}
 	out.Count("proc.registry.len" + strconv.Itoa(len(pc.reg)))
 	out.Add("proc.messages", len(pc.msgs))
@@ -1125,6 +1534,46 @@ func generate(out *wh.Out, a wh.Args) {
 			}
 		}
 	}
+	// --- several messages in flight at once in one subscription (a subscriber that does not wait for the ack), with a
+	// rendezvous inside Unmarshal: every message of the batch is past its context set-up before any handler is called
+	cper := 2
+	if thorough {
+		cper = 12
+	}
+	for _, kind := range []byte{'c', 'e', 'g'} {
+		for fl := 0; fl < 4; fl++ {
+			for _, oh := range []byte{'n', 'p'} {
+				for _, marsh := range []byte{'j', 'p'} {
+					for gen := 0; gen < nGens; gen++ {
+						for k := 0; k < cper; k++ {
+							pc := procCase{kind: kind, ackErr: fl&2 != 0, ackUnk: fl&1 != 0, oh: oh, marsh: marsh, gen: gen, conc: true, reg: genReg(rng)}
+							n := 2 + rng.Intn(4)
+							for i := 0; i < n; i++ {
+								pc.msgs = append(pc.msgs, genMsg(rng, marsh, gen, pc.reg))
+							}
+							emitProc(out, pc)
+						}
+					}
+				}
+			}
+		}
+	}
+	// --- sequences of values through one bus whose topic generator reads the value / application state
+	sper := 2
+	if thorough {
+		sper = 12
+	}
+	for _, cmd := range []bool{true, false} {
+		for _, marsh := range []byte{'j', 'p'} {
+			for gen := 0; gen < nGens; gen++ {
+				for _, mode := range []byte{'v', 'f', 'm', 'e'} {
+					for k := 0; k < sper; k++ {
+						emitBusSeq(out, genBusSeq(rng, cmd, marsh, gen, mode))
+					}
+				}
+			}
+		}
+	}
 	// --- deprecated facade (cheap): NewCommandProcessor / NewEventProcessor fix the flags
 	for _, kind := range []byte{'c', 'e'} {
 		for _, marsh := range []byte{'j', 'p'} {
@@ -1178,13 +1627,43 @@ func replay(out *wh.Out, line string) error {
 		emitBus(out, b)
 		return nil
 	}
+	if len(f) >= 5 && f[0] == "busseq" {
+		in := strings.Split(f[4], ".")
+		if len(in) != 3 || len(f[2]) != 1 || len(f[3]) != 1 || len(in[0]) != 1 || len(in[2]) != 1 {
+			return errors.New("busseq info")
+		}
+		gen, err := strconv.Atoi(in[1])
+		if err != nil || gen < 0 || gen >= nGens || !strings.Contains("vfme", in[2]) {
+			return errors.New("busseq generator")
+		}
+		b := busSeqCase{cmd: f[1] == "c", hook: f[2][0], mod: f[3][0], marsh: in[0][0], gen: gen, mode: in[2][0]}
+		for _, sd := range f[5:] {
+			p := strings.Split(sd, "/")
+			if len(p) != 5 {
+				return errors.New("busseq send")
+			}
+			vi := strings.Split(p[4], ".")
+			if len(vi) != 3 {
+				return errors.New("busseq value")
+			}
+			ty, e1 := strconv.Atoi(vi[0])
+			seed, e2 := strconv.ParseUint(vi[1], 10, 64)
+			flag, e3 := strconv.Atoi(vi[2])
+			if e1 != nil || e2 != nil || e3 != nil || ty < 0 || ty > 4 || flag < 0 || flag > 1 {
+				return errors.New("busseq value")
+			}
+			b.sends = append(b.sends, busSend{ty: ty, seed: seed, flag: flag, pubOK: p[2] == "o"})
+		}
+		emitBusSeq(out, b)
+		return nil
+	}
 	if len(f) >= 6 && f[0] == "proc" {
 		in := strings.Split(f[5], ".")
-		if len(in) != 3 || len(f[2]) != 2 {
+		if (len(in) != 3 && !(len(in) == 4 && in[3] == "c")) || len(f[2]) != 2 {
 			return errors.New("proc info")
 		}
 		gen, _ := strconv.Atoi(in[1])
-		pc := procCase{kind: f[1][0], ackErr: f[2][0] == '1', ackUnk: f[2][1] == '1', oh: f[3][0], marsh: in[0][0], gen: gen, dep: in[2] == "1"}
+		pc := procCase{kind: f[1][0], ackErr: f[2][0] == '1', ackUnk: f[2][1] == '1', oh: f[3][0], marsh: in[0][0], gen: gen, dep: in[2] == "1", conc: len(in) == 4}
 		for _, e := range strings.Split(f[4], ",") {
 			p := strings.Split(e, ".")
 			if len(p) != 2 {
@@ -1232,4 +1711,5 @@ func main() {
 		return
 	}
 	generate(out, a)
+	out.Add("proc.rendezvous_timeouts", int(atomic.LoadInt32(&rendezvousMisses)))
 }
